@@ -15,7 +15,8 @@ Inductive atom :=
 | ABool (b : bool)
 | AInt (z : Z)
 | AStr (s : list N)
-| AOpaque (id : N).        (* lists, floats, ...: compared by identity of their canonical text *)
+| AOpaque (id : N)         (* floats, ...: compared by identity of their canonical text *)
+| AList (id : N).          (* a Python list, identified by its canonical text; id 0 is the empty list [] *)
 
 Inductive cv :=
 | Leaf (dflt : bool) (a : atom)      (* dflt = true: DefaultValue(a) *)
@@ -30,6 +31,7 @@ Definition atom_eqb (a b : atom) : bool :=
   | AInt x, AInt y => Z.eqb x y
   | AStr x, AStr y => str_eqb x y
   | AOpaque x, AOpaque y => N.eqb x y
+  | AList x, AList y => N.eqb x y
   | _, _ => false
   end.
 
@@ -128,6 +130,7 @@ Definition atom_truthy (a : atom) : bool :=
   | AInt z => negb (Z.eqb z 0)
   | AStr s => match s with [] => false | _ => true end
   | AOpaque _ => true
+  | AList id => negb (N.eqb id 0)
   end.
 
 Definition cv_truthy (v : cv) : bool :=
@@ -136,6 +139,86 @@ Definition cv_truthy (v : cv) : bool :=
 (* s.lower().replace("_", "-") on ASCII *)
 Definition lower_dash (s : list N) : list N :=
   map (fun c => if (65 <=? c) && (c <=? 90) then c + 32 else if c =? 95 then 45 else c) s.
+
+(* ---- Python values and exceptions for the translated getters of LanguageConfig ---- *)
+Inductive cfg_result (A : Type) :=
+| CfgOk (a : A)
+| CfgKeyError
+| CfgTypeError
+| CfgUnmodelled.           (* text of a list/float/dict, attribute of a non-str: outside the model *)
+Arguments CfgOk {A} a.
+Arguments CfgKeyError {A}.
+Arguments CfgTypeError {A}.
+Arguments CfgUnmodelled {A}.
+
+Definition rbind {A B : Type} (r : cfg_result A) (f : A -> cfg_result B) : cfg_result B :=
+  match r with CfgOk a => f a | CfgKeyError => CfgKeyError | CfgTypeError => CfgTypeError | CfgUnmodelled => CfgUnmodelled end.
+
+(* a Python value handled by the getters: the _UNSET sentinel or a configuration value (None = Leaf false ANone,
+   a str = Leaf false (AStr s), a bool = Leaf false (ABool b), DefaultValue(x) = Leaf true x) *)
+Inductive pyv := PUnset | PV (v : cv).
+
+Fixpoint digit_codes (u : Decimal.uint) : list N :=
+  match u with
+  | Decimal.Nil => []
+  | Decimal.D0 r => 48 :: digit_codes r | Decimal.D1 r => 49 :: digit_codes r | Decimal.D2 r => 50 :: digit_codes r
+  | Decimal.D3 r => 51 :: digit_codes r | Decimal.D4 r => 52 :: digit_codes r | Decimal.D5 r => 53 :: digit_codes r
+  | Decimal.D6 r => 54 :: digit_codes r | Decimal.D7 r => 55 :: digit_codes r | Decimal.D8 r => 56 :: digit_codes r
+  | Decimal.D9 r => 57 :: digit_codes r
+  end.
+
+(* str(z) *)
+Definition py_str_int (z : Z) : list N :=
+  match Z.to_int z with
+  | Decimal.Pos u => digit_codes u
+  | Decimal.Neg u => 45 :: digit_codes u
+  end.
+
+(* str(x) of a leaf value *)
+Definition py_str (a : atom) : option (list N) :=
+  match a with
+  | ANone => Some [78; 111; 110; 101]
+  | ABool true => Some [84; 114; 117; 101]
+  | ABool false => Some [70; 97; 108; 115; 101]
+  | AInt z => Some (py_str_int z)
+  | AStr s => Some s
+  | AOpaque _ => None
+  | AList _ => None
+  end.
+
+(* s.lower(): ASCII; no non-ASCII character lower-cases to a letter of "false", so comparing with "false" is exact *)
+Definition ascii_lower (s : list N) : list N := map (fun c => if (65 <=? c) && (c <=? 90) then c + 32 else c) s.
+
+(* x is None   (DefaultValue(None) is not None) *)
+Definition py_is_none (v : pyv) : bool := match v with PV (Leaf false ANone) => true | _ => false end.
+(* x is self._UNSET *)
+Definition py_is_unset (v : pyv) : bool := match v with PUnset => true | PV _ => false end.
+(* bool(x) *)
+Definition py_truthy (v : pyv) : bool := match v with PUnset => true | PV x => cv_truthy x end.
+(* isinstance(x, DefaultValue) / x.value *)
+Definition py_is_default (v : pyv) : bool := match v with PV x => is_default x | PUnset => false end.
+Definition py_default_value (v : pyv) : pyv := match v with PV x => PV (unwrap_default x) | PUnset => PUnset end.
+(* isinstance(x, list) / isinstance(x, dict) *)
+Definition py_is_list (v : pyv) : bool := match v with PV (Leaf false (AList _)) => true | _ => false end.
+Definition py_is_dict (v : pyv) : bool := match v with PV (Node _) => true | _ => false end.
+(* a == b for the comparisons the getters make (str against a str constant) *)
+Definition py_eq (a b : pyv) : bool :=
+  match a, b with PV (Leaf false x), PV (Leaf false y) => atom_eqb x y | _, _ => false end.
+(* str(x) *)
+Definition py_str_v (v : pyv) : cfg_result pyv :=
+  match v with
+  | PV (Leaf false a) => match py_str a with Some s => CfgOk (PV (Leaf false (AStr s))) | None => CfgUnmodelled end
+  | _ => CfgUnmodelled
+  end.
+(* x.lower() *)
+Definition py_lower (v : pyv) : cfg_result pyv :=
+  match v with PV (Leaf false (AStr s)) => CfgOk (PV (Leaf false (AStr (ascii_lower s)))) | _ => CfgUnmodelled end.
+(* d[k] on a dict with a str key: KeyError when absent; a non-dict container is outside the model *)
+Definition py_getitem (d k : pyv) : cfg_result pyv :=
+  match d, k with
+  | PV (Node m), PV (Leaf false (AStr s)) => match dget s m with Some v => CfgOk (PV v) | None => CfgKeyError end
+  | _, _ => CfgUnmodelled
+  end.
 
 (* a well-formed document: unique keys at every level *)
 Fixpoint wf (v : cv) : bool :=
